@@ -20,3 +20,13 @@ impl MinOutputAdaCalculator {
     #[verifier::external_body] pub fn set_script_ref(&mut self, script_ref: &ScriptRef) ensures *final(self) == (MinOutputAdaCalculator { output: TransactionOutput { script_ref: Some(*script_ref), ..old(self).output }, ..*old(self) }) { unimplemented!() }
 }
 clone_eq!(DataOption);
+
+// ---- the multi-asset change block
+/// sum over bundles of the quantity of one asset
+pub open spec fn ma_sum(s: Seq<MultiAsset>, a: AssetId) -> nat decreases s.len() { if s.len() == 0 { 0 } else { ma_sum(s.drop_last(), a) + ma_qty(s.last(), a) } }
+/// `change_left.multiasset ... partial_cmp(&MultiAsset::new()) == Some(Greater)`: some asset is left (MultiAsset's partial order is proved component-wise in unit ma_cmp)
+#[verifier::external_body] pub fn has_positive_asset_(v: &Value) -> (r: bool) ensures r == exists|a: AssetId| qty(*v, a) > 0 { unimplemented!() }
+impl Value {
+    #[verifier::external_body] pub fn set_multiasset(&mut self, multiasset: &MultiAsset) ensures final(self).coin == old(self).coin, final(self).multiasset == Some(*multiasset) { unimplemented!() }
+    #[verifier::external_body] pub fn is_zero(&self) -> (r: bool) ensures r ==> self.coin.0 == 0 && forall|a: AssetId| qty(*self, a) == 0 { unimplemented!() }
+}
